@@ -112,7 +112,8 @@ def rand_seconds(rng):
         return rng.choice([-1, 1]) * rng.choice([0.5e-9, 1.5e-9, 2.5e-9, 0.4999999999e-9, 0.9999999996, 0.9999999994,
                                                1e-12, 0.0, 1e-9, 123456789.987654321])
     if r < 0.5:
-        return rng.choice([-1, 1]) * (rng.randrange(0, 10 ** 6) + rng.randrange(0, 10 ** 9) / 1e9)
+        # whole seconds plus a sub-second part, both signs: -1.5 s, -86400.25 s, ...
+        return rng.choice([-1, -1, 1]) * (rng.randrange(0, 10 ** rng.randrange(1, 8)) + rng.randrange(1, 10 ** 9) / 1e9)
     if r < 0.8:
         return rng.choice([-1, 1]) * math.exp(rng.uniform(math.log(1e-10), math.log(7e11)))
     return float(rng.choice([-1, 1]) * rng.randrange(0, 10 ** rng.randrange(1, 12)))
@@ -159,7 +160,10 @@ def run(chk):
     # ---- (C) zones, parse/format, non-finite durations
     zone_cases = []
     for _ in range(150 if quick else 3000):
-        zone_cases.append((rng.randrange(-6 * 10 ** 10, 2 * 10 ** 11), rng.randrange(0, 10 ** 6), rng.choice(ZONES)))
+        # instants over the whole supported range (years -9999 .. 9999; a day of margin so that the zone offset cannot
+        # push the civil time out of range), half of them within a few centuries of today
+        tt = rng.randrange(TS_MIN_S + 2 * 86400, TS_MAX_S - 2 * 86400) if rng.random() < 0.5 else rng.randrange(-6 * 10 ** 9, 9 * 10 ** 9)
+        zone_cases.append((tt, rng.randrange(0, 10 ** 6), rng.choice(ZONES)))
     zlines = []
     for t, us, z in zone_cases:
         inst = "from_unixtime_µs(%d)" % (t * 10 ** 6 + us) if abs(t) < 8 * 10 ** 9 else instant_src(t)
